@@ -9,7 +9,7 @@ LOGICAL_SIMPLE = [('date', 'int'), ('time-millis', 'int'), ('time-micros', 'long
                   ('local-timestamp-millis', 'long'), ('local-timestamp-micros', 'long'),
                   ('local-timestamp-nanos', 'long')]
 DOCS = ['plain doc', 'quote " and backslash \\ here', 'tab\tnewline\nend', 'unicode é中\U0001F600', '', '</script> ']
-NAMESPACES = [None, 'a', 'a.b', 'com.example', 'x_1.y_2']
+NAMESPACES = [None, 'a', 'a.b', 'com.example', 'x_1.y_2', 'a._b9', '_c', 'A.B_.c0']
 
 
 class Opts:
@@ -44,6 +44,8 @@ class SchemaGen:
 
     def fresh(self, prefix):
         self.n += 1
+        if self.r.random() < 0.08:
+            prefix = '_' + prefix          # names may start with an underscore
         return '%s%d' % (prefix, self.n)
 
     # -- decorations
